@@ -2,6 +2,7 @@ package pt
 
 import (
 	"fmt"
+	"go/constant"
 	"go/token"
 	"go/types"
 	"strings"
@@ -201,6 +202,11 @@ func (it *interp) call(x *ssa.Call) val {
 			if ss, ok := src.(slc); ok {
 				sn, sok = ss.length()
 			}
+			// copy(dst, "constant string"): the bytes of the string, of known length
+			if cs, ok := c.Args[1].(*ssa.Const); ok && cs.Value != nil && cs.Value.Kind() == constant.String {
+				sn, sok = len(constant.StringVal(cs.Value)), true
+				st = T("bytes", st)
+			}
 			it.event("copy", []*Term{contentOfVal(dst), st}, x, nil)
 			switch {
 			case dok && sok:
@@ -208,9 +214,11 @@ func (it *interp) call(x *ssa.Call) val {
 				if sn < n {
 					n = sn
 					it.writePrefix(dst, n, st)
-				} else if sn > n {
-					ss := src.(slc)
+				} else if ss, isSlc := src.(slc); sn > n && isSlc {
 					it.writePrefix(dst, n, ss.o.region(ss.lo, ss.lo+n))
+				} else if sn > n {
+					it.unrec("copy of a string longer than the destination")
+					it.writeVal(dst, st)
 				} else {
 					it.writePrefix(dst, n, st)
 				}
@@ -577,8 +585,11 @@ func (it *interp) inline(x *ssa.Call, fn *ssa.Function) val {
 // rule needs the callee's effect element by element (unrolled-stage analysis through delegating wrappers).
 func (it *interp) inlineFull(x *ssa.Call, fn *ssa.Function) val {
 	c := x.Common()
+	if it.lenFact == nil {
+		it.lenFact = map[string]int{} // shared with the callee: a length guard in one helper holds in the next
+	}
 	sub := &interp{fn: fn, m: it.m, env: map[ssa.Value]val{}, globals: it.globals, path: it.path, valu: it.valu,
-		decs: it.decs, dpos: it.dpos, visits: map[*ssa.BasicBlock]int{}, depth: it.depth + 1}
+		decs: it.decs, dpos: it.dpos, visits: map[*ssa.BasicBlock]int{}, depth: it.depth + 1, inlined: true, lenFact: it.lenFact, params: it.params}
 	for i, p := range fn.Params {
 		sub.env[p] = it.get(c.Args[i])
 	}
@@ -606,8 +617,14 @@ func (it *interp) inlineFull(x *ssa.Call, fn *ssa.Function) val {
 			break
 		}
 		if done {
-			if it.path.Kind == "return" && len(it.path.Results) > 0 {
-				ret = tv{it.path.Results[len(it.path.Results)-1]}
+			if it.path.Kind == "return" {
+				switch len(sub.retVals) {
+				case 0:
+				case 1:
+					ret = sub.retVals[0]
+				default:
+					ret = tup{sub.retVals}
+				}
 			}
 			break
 		}
